@@ -267,6 +267,16 @@ func contentProblems(src iso.Source, h *iso.Hierarchy, ents []srcEntry, upper bo
 		}
 	}
 	fm := h.FileMap()
+	// a version suffix ";1" on file identifiers is legal in both hierarchies (the reader strips it in
+	// the primary one already): tolerate it in Joliet too
+	for p, f := range fm {
+		if strings.HasSuffix(p, ";1") {
+			if _, clash := fm[strings.TrimSuffix(p, ";1")]; !clash {
+				delete(fm, p)
+				fm[strings.TrimSuffix(p, ";1")] = f
+			}
+		}
+	}
 	// duplicates hidden by FileMap: count records
 	nFiles := 0
 	for _, d := range h.Dirs {
